@@ -307,3 +307,47 @@ let () =
         | OClose e -> Printf.sprintf "c:%s" (oerr_name e)) obs) in
       Printf.sprintf "open:nil|%s|" (if os = "" then "-" else os)
     | _ -> "badargs")
+
+let rec int_of_nat (n : nat) : int = match n with O -> 0 | S m -> 1 + int_of_nat m
+
+(* primpl <hexdata|-> <buffered 0/1> <big 0/1> <fills a,b,..|-> <reads ..|-> op... ;
+   op = b:<n> | p | r:<k> | f : implementation-level model of prefix.Reader
+   (Prefix/ReaderImpl.v) over a scripted source *)
+let () =
+  register "primpl" (fun args -> match args with
+    | hex :: buffered :: big :: fills :: reads :: ops ->
+      let data = if hex = "-" then [] else bytes_of_hex hex in
+      let ints s = if s = "-" then [] else List.map (fun x -> nat_of_int (int_of_string x)) (String.split_on_char ',' s) in
+      let p0 = init data (buffered = "1") (big = "1") (ints fills) (ints reads) in
+      let pops = List.map (fun o -> match colon o with
+        | ["b"; n] -> PBits (n_of_string n)
+        | ["r"; k] -> PRaw (nat_of_int (int_of_string k))
+        | ["p"] -> PPads
+        | _ -> PFlush) ops in
+      let obs = prun p0 pops in
+      (* the harness stops at the first panic *)
+      let rec upto acc = function
+        | [] -> List.rev acc
+        | (OBits (None, br)) :: _ -> List.rev (Printf.sprintf "b:panic:%s" (z_to_string br) :: acc)
+        | (OBits (Some v, br)) :: r -> upto (Printf.sprintf "b:%s:%s" (n_to_string v) (z_to_string br) :: acc) r
+        | (OPads (v, br)) :: r -> upto (Printf.sprintf "p:%s:%s" (n_to_string v) (z_to_string br) :: acc) r
+        | (ORaw (bs, e, br)) :: r ->
+          upto (Printf.sprintf "r:%s:%s:%s" (if bs = [] then "-" else hex_of_bytes bs) (n_to_string e) (z_to_string br) :: acc) r
+        | (OFlush (off, pos)) :: r -> upto (Printf.sprintf "f:%s:%d" (z_to_string off) (int_of_nat pos) :: acc) r in
+      String.concat "," (upto [] obs)
+    | _ -> "badargs")
+
+(* prspec: same arguments as primpl; does the model's run satisfy the abstract bit-stream
+   specification (Prefix/ReaderSpec.v check_model)? *)
+let () =
+  register "prspec" (fun args -> match args with
+    | hex :: buffered :: big :: fills :: reads :: ops ->
+      let data = if hex = "-" then [] else bytes_of_hex hex in
+      let ints s = if s = "-" then [] else List.map (fun x -> nat_of_int (int_of_string x)) (String.split_on_char ',' s) in
+      let pops = List.map (fun o -> match colon o with
+        | ["b"; n] -> PBits (n_of_string n)
+        | ["r"; k] -> PRaw (nat_of_int (int_of_string k))
+        | ["p"] -> PPads
+        | _ -> PFlush) ops in
+      if check_model data (buffered = "1") (big = "1") (ints fills) (ints reads) pops then "spec-ok" else "SPEC-VIOLATED"
+    | _ -> "badargs")
